@@ -136,7 +136,13 @@ def render(objs, kind, conf, nocolor, mode):
         old = get_global_colors_config()
         set_global_colors_config(conf)
         try:
-            return HCommand()._make_help_text(objs.documented)
+            import contextlib
+            import io
+            buf = io.StringIO()
+            with contextlib.redirect_stdout(buf):
+                HCommand()(objs.documented)              # the public way: the command prints the help text
+            text = buf.getvalue()
+            return text[:-1] if text.endswith('\n') else text
         finally:
             set_global_colors_config(old)
     if kind == 'record':
